@@ -3,6 +3,7 @@ import SquidModel.Properties.C37
 #print axioms SquidModel.C37.unpack_total_no_oob
 #print axioms SquidModel.C37.name_unpack_total_no_oob
 #print axioms SquidModel.C37.name_unpack_encodes_partial
+#print axioms SquidModel.C37.name_text_is_dotted
 #print axioms SquidModel.C37.record_unpack_encodes_partial
 #print axioms SquidModel.C37.unpack_encodes_partial
 #print axioms SquidModel.C37.decoded_text_determines_labels
@@ -10,8 +11,10 @@ import SquidModel.Properties.C37
 #print axioms SquidModel.C37.header_roundtrip
 #print axioms SquidModel.C37.query_roundtrip
 #print axioms SquidModel.C37.query_roundtrip_text
+#print axioms SquidModel.C37.source_flags
 #print axioms SquidModel.C37.deep_chain_counterexample
-#print axioms SquidModel.C37.pointer_to_root_counterexample
-#print axioms SquidModel.C37.edns_query_memcpy_null_counterexample
+#print axioms SquidModel.C37.pointer_to_root_decodes
+#print axioms SquidModel.C37.prefix_pointer_to_root_counterexample
+#print axioms SquidModel.C37.prefix_opt_pack_memcpy_null_counterexample
 #print axioms SquidModel.C37.sample_name
 #print axioms SquidModel.C37.sample_encodes
